@@ -522,6 +522,8 @@ func (p *printer) node1(it *item) (string, error) {
 		return p.tag(it.l, "lqx_fail"+sp+"boom", it.r), nil
 	case "xsub":
 		return p.tag(it.l, "lqx_sub", it.r), nil
+	case "xloopidx":
+		return p.tag(it.l, "lqx_loopidx", it.r), nil
 	case "xfile":
 		return p.tag(it.l, "lqx_file"+sp+bytesOf(n["rel"]), it.r), nil
 	case "xexpand":
